@@ -232,6 +232,11 @@ type poly2 struct {
 	Rad    []float64   `json:"rad"`    // radius, [0.4, 1.6]
 	Extra  [][]float64 `json:"extra"`  // per edge: sorted interpolation parameters in (0,1)
 	Scale  float64     `json:"scale"`
+	// Bend, if present, has the shape of Extra: the extra point is moved off its edge, along the edge normal, by
+	// Bend * sqrt(2*BendEps) * (edge length) / (points on the edge + 1), which gives turning angles t with
+	// 1-cos t of the order of Bend^2 * BendEps (vertices near the threshold of EliminateColinear(BendEps)).
+	Bend    [][]float64 `json:"bend,omitempty"`
+	BendEps float64     `json:"bendEps,omitempty"`
 }
 
 var allKinds2 = []string{"csg", "csg", "field", "lattice", "lattice", "polar", "polygon", "polygon", "rect"}
@@ -254,6 +259,32 @@ func genPoly2(t *rapid.T, label string) poly2 {
 	return p
 }
 
+// genBendPoly2: a sector polygon whose extra points are bent off their edges by amounts that put their
+// turning angles around the threshold of EliminateColinear(eps): whether one of them is removable then
+// depends on which of its neighbours went first.
+func genBendPoly2(t *rapid.T, eps float64, label string) poly2 {
+	n := gen.Int(t, 3, 6, label+".n")
+	p := poly2{C: gen.Vec2(t, 1, label+".c"), Scale: gen.LogF(t, 0.1, 10, label+".scale"), BendEps: eps}
+	for i := 0; i < n; i++ {
+		p.Ang = append(p.Ang, gen.F(t, 0, 0.8, label+".ang"))
+		p.Rad = append(p.Rad, gen.F(t, 0.6, 1.4, label+".rad"))
+		k := gen.Int(t, 0, 3, label+".nextra")
+		var ex, bd []float64
+		for j := 0; j < k; j++ {
+			ex = append(ex, (float64(j)+gen.F(t, 0.3, 0.7, label+".u"))/float64(k))
+			switch gen.Int(t, 0, 3, label+".bendkind") {
+			case 0:
+				bd = append(bd, 0)
+			default:
+				bd = append(bd, gen.F(t, -1.5, 1.5, label+".bend"))
+			}
+		}
+		p.Extra = append(p.Extra, ex)
+		p.Bend = append(p.Bend, bd)
+	}
+	return p
+}
+
 func (p poly2) corners() []kit.V2 {
 	n := len(p.Ang)
 	out := make([]kit.V2, n)
@@ -271,8 +302,13 @@ func (p poly2) points() []kit.V2 {
 	for i, a := range cs {
 		b := cs[(i+1)%len(cs)]
 		out = append(out, a)
-		for _, u := range p.Extra[i] {
-			out = append(out, kit.V2{a[0] + u*(b[0]-a[0]), a[1] + u*(b[1]-a[1])})
+		for j, u := range p.Extra[i] {
+			q := kit.V2{a[0] + u*(b[0]-a[0]), a[1] + u*(b[1]-a[1])}
+			if p.Bend != nil && p.Bend[i][j] != 0 {
+				h := p.Bend[i][j] * math.Sqrt(2*p.BendEps) / float64(len(p.Extra[i])+1)
+				q = kit.V2{q[0] - h*(b[1]-a[1]), q[1] + h*(b[0]-a[0])}
+			}
+			out = append(out, q)
 		}
 	}
 	return out
